@@ -223,6 +223,13 @@ def scenarios():
                            "func providePort() int { return 80 }\nfunc NewOut(s *conf.Settings) Out { return Out{S: fmt.Sprint(s.Host, s.Port, s.Note == \"\")} }\n\nfunc main() { fmt.Println(initOut().S) }\n"),
         "h8/app/wire.go": INJ + ("package main\n\nimport (\n\t\"example.com/l/h8/conf\"\n\t\"%s\"\n)\n\nfunc initOut() Out {\n\tpanic(wire.Build(provideConf, provideHost, providePort, wire.Struct(new(conf.Settings), \"Host\", \"Port\"), NewOut))\n}\n") % W,
     }, "./h8/app", "h80 true", ["C12", "C14", "C01"])
+    # "*" on a struct with an embedded field whose type something else consumes as well
+    add("H-star-with-an-embedded-field", "H", {
+        "h9/app/main.go": ("package main\n\nimport \"fmt\"\n\ntype Logger struct{ P string }\ntype Store struct{ L *Logger }\ntype App struct {\n\t*Logger\n\tMax int\n\tS   Store\n}\n\n"
+                           "func NewLogger() *Logger { return &Logger{P: \"log\"} }\nfunc NewMax() int { return 9 }\nfunc NewStore(l *Logger) Store { return Store{L: l} }\n\n"
+                           "func main() {\n\ta := initApp()\n\tfmt.Println(a.Logger != nil && a.P == \"log\", a.Max, a.S.L == a.Logger)\n}\n"),
+        "h9/app/wire.go": INJ + ("package main\n\nimport \"%s\"\n\nfunc initApp() *App {\n\tpanic(wire.Build(NewLogger, NewMax, NewStore, wire.Struct(new(App), \"*\")))\n}\n") % W,
+    }, "./h9/app", "true 9 true", ["C02", "C12"])
     # variadic provider fed from a slice provider, variadic injector parameter consumed as a slice
     add("H-variadic-provider-and-injector", "H", {
         "h5/app/main.go": ("package main\n\nimport \"fmt\"\n\ntype Option string\ntype App struct {\n\tOpts []Option\n\tIDs  []string\n}\n\nfunc NewOptions() []Option { return []Option{\"a\", \"b\"} }\n"
